@@ -10,6 +10,10 @@ formulas — exact equality of representations at every shift):
                       `&initial`/`&final` (double negation), 0-fold and n-fold next included
   (a)+(b)+(c) head_clauses_mean_formula   the clauses emitted d steps after the formula's own step hold exactly when the
                       documented formula holds at its step
+  (a') range_adequate / emitted_heads_in_ranges   the time ranges computed for the atoms of a head formula (the recursion of
+                      `TheoryAtomTransformer`: next operators move the range, unbounded operators make it a ray, nothing
+                      below `~`) cover every atom that stands in a clause of the formula shifted by d steps: the domain rule
+                      introduces every atom the step-wise translation can put into a rule head
   (b) unshift_equiv   the formula shifted by d steps (the recursion until → next → shift of `ShiftFormula`)
                       means, d states later, what the formula means now, in every THT world; termination of
                       that recursion is part of the definition's acceptance by Lean
@@ -22,6 +26,7 @@ incremental grounding is validated by the search against the brute-force THT equ
 -/
 import TelProofs.HeadShift
 import TelProofs.HeadDocEq
+import TelProofs.RangeAdequate
 import TelProofs.Meta.Shift
 import TelProofs.CoreEquiv
 
@@ -70,6 +75,12 @@ theorem head_clauses_mean_formula (s : SForm) (hok : s.headOk = true) (hg : Good
   rw [clauses_at_step h _ _ d s0 f hk hn]
   exact hs h W T s0 (by omega)
 
+/-- (a') every atom in a clause emitted `d` steps after the formula's own step lies in a range computed for it -/
+theorem emitted_heads_in_ranges (d : Nat) (f : HForm) (c : List HForm) (hc : c ∈ unfoldF (shiftF d f))
+    (p : Bool) (n : String) (a : List Sym) (hx : HForm.atom p n a ∈ c) :
+    ∃ r, (hkey p n a, r) ∈ rangesH 0 false f ∧ r.covers d :=
+  TelProofs.emitted_heads_in_ranges d f c hc p n a hx
+
 /-- (d) -/
 theorem shift_iff {β : Type} (time : β → Nat) (P : Set (Meta.Rule β)) (hstrat : ∀ r ∈ P, r.stratified time)
     (T : Set β) : Meta.Stable (Meta.shiftProg time P) T ↔ Meta.Stable P T :=
@@ -85,6 +96,8 @@ theorem choice_reading (h : Nat) (W T : Trace) (a : HForm) (k : Nat) :
 /-! ### non-vacuity -/
 example : (SForm.rel (.atom "a") (.bin .or (.seqNext true (.atom "b") (.finally_ (.atom "a"))) (.neg (.next 2 false (.kw .kfinal))))).headOk = true := rfl
 
+example : rangesH 0 false (.clause2 (.next 2 (.atom true "a" []) false) (.until1 (.next 1 (.atom true "b" []) true) false) true) =
+    [("a()", ⟨2, false⟩), ("b()", ⟨1, true⟩)] := by decide
 example : noShift (.until2 (.atom true "a" []) (.clause2 (.atom true "b" []) (.neg (.atom true "c" [])) false) true) = true := rfl
 example : shiftF 1 (.next 1 (.atom true "a" []) false) = .atom true "a" [] := by simp [shiftF]
 example : shiftF 0 (.next 1 (.atom true "a" []) false) = .shift 0 (.next 1 (.atom true "a" []) false) := by simp [shiftF]
